@@ -47,6 +47,7 @@ class Harness:
         self.named_choices = {}
         self.leaf_log = {}
         self.ghost = {}
+        self.tier = "quick"
         self.agg = {}  # native modes: name -> [n_ok, n_fail, first failing witness]
         self.keep_all = True
 
@@ -194,8 +195,6 @@ class Harness:
                 self.results.append((name, "discharged", {"backend": "eval", "t": 0.0}))
             else:
                 r, m = self.pctx._check()
-                if r == z3.unsat:
-                    raise PathInfeasible()
                 self.results.append(
                     (name, "violated", {"backend": "eval", "model": self._model_dict(m), "t": time.time() - t0})
                 )
@@ -263,7 +262,7 @@ def _reset_globals():
     rv.errors.RAISE_CONTROLLER_VALUE_ERRORS = True
 
 
-def explore(body, case, timeout_ms=10000, max_paths=20000, deadline=None):
+def explore(body, case, timeout_ms=10000, max_paths=20000, deadline=None, tier="quick"):
     """Run `body(H, case)` on every feasible path.  -> (list[PathRecord], Stats, Interp)"""
     stats = Stats()
     interp = Interp()
@@ -283,6 +282,7 @@ def explore(body, case, timeout_ms=10000, max_paths=20000, deadline=None):
         sym.set_ctx(pctx)
         _reset_globals()
         H = Harness("symbolic", pctx, interp)
+        H.tier = tier
         rec = PathRecord()
         try:
             body(H, case)
@@ -321,10 +321,11 @@ def explore(body, case, timeout_ms=10000, max_paths=20000, deadline=None):
     return records, stats, interp
 
 
-def replay_native(body, case, leaf_values, choices):
+def replay_native(body, case, leaf_values, choices, tier="quick"):
     """Run the same contract body natively on concrete inputs.  -> Harness (results) or exception"""
     _reset_globals()
     H = Harness("replay", leaf_values=leaf_values, choices=choices)
+    H.tier = tier
     exc = None
     try:
         body(H, case)
@@ -337,12 +338,13 @@ def replay_native(body, case, leaf_values, choices):
     return H, exc
 
 
-def run_concrete_interp(body, case, leaf_values, choices):
+def run_concrete_interp(body, case, leaf_values, choices, tier="quick"):
     """Run the body through the interpreter on concrete inputs (engine self-check)."""
     pctx = PathCtx([], 5000)
     sym.set_ctx(pctx)
     _reset_globals()
     H = Harness("concrete", pctx=pctx, interp=Interp(), leaf_values=leaf_values, choices=choices)
+    H.tier = tier
     exc = None
     try:
         body(H, case)
